@@ -243,7 +243,8 @@ pub fn select<T>(
 }
 
 
-pub const CHAR_SET: [char;7] = ['}','{',']','[',')','(',','];
+// ';' - the printed array type `[Self; 2]` has no space between the element type and the semicolon
+pub const CHAR_SET: [char;8] = ['}','{',']','[',')','(',',',';'];
 
 pub fn space_around_chars( mut s: String, char_set: &[char]) -> String {
     for c in char_set{
